@@ -36,8 +36,8 @@ VARIANTS = {
 # harness targets: name -> (sources, extra flags, link core objects?, variants allowed)
 TARGETS = {
     "vdrv": (["vdrv.cpp", "update_stub.cpp"], ["-fno-access-control"], True),
-    "sim_mc": (["sim_mc.cpp"], ["-fno-access-control"], True),
-    "lex_mc": (["lex_mc.cpp"], ["-fno-access-control"], True),
+    "sim_mc": (["sim_mc.cpp", "update_stub.cpp"], ["-fno-access-control"], True),
+    "lex_mc": (["lex_mc.cpp", "update_stub.cpp"], ["-fno-access-control"], True),
     "front_mc": (["front_mc.cpp", "update_stub.cpp"], ["-fno-access-control"], True),
     "upd_mc": (["upd_mc.cpp"], ["-fno-access-control", "-I" + os.path.join(HARNESS, "stubs")], False),
     "gcthread_mc": (["gcthread_mc.cpp", "sched.cpp", "update_stub.cpp"], ["-fno-access-control"], True),
